@@ -3,6 +3,7 @@
 From Coq Require Import List ZArith Bool Arith.
 From Coq Require Import PrimFloat.
 From PV Require Import IC10.Values IC10.Machine IC10.FloatAlg Valid.Resolve Valid.ResolveProofs Valid.ResolveSem.
+From PV Require Valid.ResolveCalls.
 Import ListNotations.
 
 (* (b) reference renumbering: for EVERY program and label, the number that replaces the label
@@ -67,3 +68,15 @@ Theorem C05_label_free_runs_are_runs_of_the_labelled_program :
     let b := run FloatAlg O (resolve FloatAlg q) fuel' (init_state FloatAlg) in
     hist b = hist a /\ st b = st a /\ regs b = regs a /\ mem b = mem a /\ pc b = instrs_before q (pc a).
 Proof. exact resolve_behaviour_converse_float. Qed.
+
+(* (d) SEMANTICS with calls.  The same for programs that also contain `jal <label>` and `j ra`, provided
+   no other operand names ra (leaf subroutines, which need not save it): same effect history, status and
+   memory; the registers agree except that ra holds the renumbered return address; the pc is renumbered *)
+Theorem C05_label_removal_preserves_behaviour_with_leaf_calls :
+  forall (O : @oracle float) (q : list (@line float)),
+    length q <= 4096 -> ResolveCalls.frag q = true -> forall fuel, exists fuel', (fuel' <= fuel) /\
+    let a := run FloatAlg O q fuel (init_state FloatAlg) in
+    let b := run FloatAlg O (resolve FloatAlg q) fuel' (init_state FloatAlg) in
+    hist b = hist a /\ st b = st a /\ mem b = mem a /\
+    regs b = ResolveCalls.map_regs FloatAlg q (regs a) /\ pc b = instrs_before q (pc a).
+Proof. exact ResolveCalls.resolve_preserves_behaviour_with_calls_float. Qed.
